@@ -269,3 +269,8 @@ twice_contract('rules:assignment:numeric-frequency', SPECIES, [(['A'], ['B'], 'm
                rules=[('assignment', {'equation': 'C = kf * A + B'}, 0.5)])
 roundtrip_contract('rules:assignment:numeric-frequency', SPECIES, [(['A'], ['B'], 'massaction', {'k': 'kf'})], ['kf'], False,
                    rules=[('assignment', {'equation': 'C = kf * A + B'}, 0.5)])
+# time-point frequencies in every spelling float() accepts: exponent form as text, and floats whose str() is in exponent form
+# (seed C12-d accepted plain decimals only and silently turned the others into "repeated")
+for _tag, _freq in (('text-exponent', '2.5e1'), ('text-small-exponent', '1e-3'), ('float-exponent-form', 5e-05), ('text-leading-dot', '.5'), ('integer', 3)):
+    roundtrip_contract('rules:assignment:frequency-' + _tag, SPECIES, [(['A'], ['B'], 'massaction', {'k': 'kf'})], ['kf'], False,
+                       rules=[('assignment', {'equation': 'C = kf * A + B'}, _freq), ('additive', {'equation': 'D = A + B'}, 'dt')])
